@@ -419,6 +419,7 @@ int main(int argc, char** argv) {
 #endif
 		}
 	}
+#if defined(VERIF_JIT_TARGETS) && !defined(RANDOMX_VERIF_NOJIT)      // (reads JitCompilerX86::instructionOffsets: only when that member exists)
 	else if (part == "codelen") { // length of the x86 code of EVERY instruction word class (opcode x dst x src x mod bytes, immediate classes), and the fixed part per flag set
 		JitCompilerX86 jit; jit.enableAll();
 		const size_t codeSize = jit.getCodeSize();
@@ -474,6 +475,7 @@ int main(int argc, char** argv) {
 			}
 		}
 	}
+#endif
 	else if (part == "codegen") { // code buffer layout: generated programs never reach the SuperscalarHash area, which stays intact
 		JitCompilerX86 jit; jit.enableAll();
 		SuperscalarProgramList programs; std::vector<uint64_t> rcache;
